@@ -62,6 +62,13 @@ Record tvenv := {
   tv_kind : pykind }.
 
 Definition is_port (E : tvenv) (x : string) : bool := match assoc (tv_ins E ++ tv_outs E) x with Some _ => true | None => false end.
+(* ports a method may read: a clock() reads any port (its own outputs too); a propagate() only inputs (reading an output
+   it has just put sees the new value in Python and the old one inside `always @*` until the block re-triggers) *)
+Definition is_readable (E : tvenv) (x : string) : bool :=
+  match tv_kind E with
+  | KClock => is_port E x
+  | KPropagate => match assoc (tv_ins E) x with Some _ => true | None => false end
+  end.
 Definition is_attr (E : tvenv) (x : string) : bool := match assoc (tv_attrs E) x with Some _ => true | None => false end.
 Definition is_const (E : tvenv) (x : string) : bool := match assoc (tv_consts E) x with Some _ => true | None => false end.
 Definition is_var (E : tvenv) (x : string) : bool := is_attr E x && negb (is_const E x).
@@ -98,7 +105,7 @@ Fixpoint tv (cond : bool) (W : Z) (sg : bool) (pe : pyexpr) (re : rexpr) {struct
   (negb cond || fits W' re) &&
   match pe, re with
   | PConst n, RNum m => (n =? m) && in31 n
-  | PGet p, RId i w s => is_port E p && net_is (tv_nets E) i p w false && negb s && (width_in (tv_ins E ++ tv_outs E) p =? w)
+  | PGet p, RId i w s => is_readable E p && net_is (tv_nets E) i p w false && negb s && (width_in (tv_ins E ++ tv_outs E) p =? w)
   | PAttr x, RId i w s => is_attr E x && negb (is_port E x) && net_is (tv_nets E) i x 32 true && s && (w =? 32)
   | PAttr x, RNum m => match assoc (tv_consts E) x with Some v => (v =? m) && in31 m | None => false end
   | PLocal x, RId i w s => is_localname E x && net_is (tv_nets E) i x 32 true && s && (w =? 32)
